@@ -3655,6 +3655,20 @@ void space_text()
                           __func__, __LINE__, pc->Text(), next->Text());
                   pc->SetFlagBits(PCF_FORCE_SPACE);
                }
+               else if (  (  pc->Is(CT_NUMBER)
+                          || pc->Is(CT_NUMBER_FP))
+                       && (  first == '+'
+                          || first == '-')
+                       && (  last == 'e'
+                          || last == 'E'
+                          || last == 'p'
+                          || last == 'P'))
+               {
+                  // '0x1e' followed by '+' or '-' would become one preprocessing number
+                  LOG_FMT(LSPACE, "%s(%d): would tokenize differently: pc->Text() '%s', next->Text() '%s'\n",
+                          __func__, __LINE__, pc->Text(), next->Text());
+                  pc->SetFlagBits(PCF_FORCE_SPACE);
+               }
                // TODO:  what is the meaning of 4
                else if (  !kw1
                        && !kw2
